@@ -852,9 +852,12 @@ def run(tier):
     # ---- MC + GEN (background) and canary
     mc_future = submit(mc_all, tier)
     try:
-        return _run(tier, sp, v, r, quick, mc_future)
-    finally:
+        rc = _run(tier, sp, v, r, quick, mc_future)
+    except BaseException:
         pool().shutdown(wait=False, cancel_futures=True)
+        raise
+    pool().shutdown(wait=True)       # every future has been collected: the workers are idle (a clean shutdown avoids a noisy race at interpreter exit)
+    return rc
 
 
 def _run(tier, sp, v, r, quick, mc_future):
@@ -1042,7 +1045,7 @@ def _run(tier, sp, v, r, quick, mc_future):
         "CmdTag inside a section and empty load data are outside the asserted domain; CmdProg is 8-byte exactly when data_word2 != 0",
         "load: header count may be the given length or the length padded to 16; the given bytes must be a prefix of the payload, padding content is free",
         "FILL with an explicit length of 0 is outside the asserted domain (the documented default 4 applies to an omitted length); key-store commands of the "
-        "operand lane use the memory ids of SPSDK's ExtMemId enumeration (1..0xFF) in rotation; LOAD lengths of the operand lane stop at 257 bytes",
+        "operand lane use the memory ids of SPSDK's ExtMemId enumeration (1..0xFF) in rotation; LOAD lengths of the operand lane: around 16, 256 and 65536 bytes (nothing longer than 64 KiB + 1 is built)",
         "fields the ROM does not use for a command (e.g. count of call/reset/keystore commands, flags of fill) are not constrained; LAST_SECTION flag is not interpreted",
         "SB 2.0: image_length / build number inside the certificate block are not constrained; SB 2.1: image_length = end of certificate block (+32 with SHA allowed)",
         "certificate chains are RSA (2048/3072/4096, 1..3 certificates, all keys of one chain of equal size); max_section_mac_count = sum of HMAC-table sizes "
